@@ -187,6 +187,7 @@ func (s *Server) DidChange(ctx context.Context, params *protocol.DidChangeTextDo
 			}
 		}
 		s.documents.Store(params.TextDocument.URI, content)
+		s.invalidatePayeeTemplates()
 		if path := uriToPath(params.TextDocument.URI); path != "" {
 			if s.workspace != nil {
 				s.workspace.UpdateFile(path, content)
@@ -209,8 +210,18 @@ func (s *Server) DidClose(ctx context.Context, params *protocol.DidCloseTextDocu
 	return nil
 }
 
+// invalidatePayeeTemplates drops every cached payee-template map. The templates
+// of one document are computed from the whole include tree or workspace, so a
+// change to any document can make any cached map stale.
+func (s *Server) invalidatePayeeTemplates() {
+	s.payeeTemplatesCache.Range(func(key, _ any) bool {
+		s.payeeTemplatesCache.Delete(key)
+		return true
+	})
+}
+
 func (s *Server) DidSave(ctx context.Context, params *protocol.DidSaveTextDocumentParams) error {
-	s.payeeTemplatesCache.Delete(params.TextDocument.URI)
+	s.invalidatePayeeTemplates()
 
 	if path := uriToPath(params.TextDocument.URI); path != "" {
 		if s.workspace != nil {
